@@ -610,6 +610,38 @@ def call_sequences(run, rng, thorough, lines, expect):
                                   "%s of this call differ from the same call on a fresh Phonopy object: state left by an earlier call on the same instance leaks" % bad, info)
 
 
+def batched_vs_single(run, rng, thorough):
+    """run_qpoints over a batch of q-points (one kernel call, q-points distributed over OpenMP threads) against the
+    NAC dynamical-matrix object asked for one q at a time; Gonze-Lee and Wang, 8 threads, repeated."""
+    from .c13_util import set_threads
+
+    switch_build("omp")
+    for method in ("gonze", "wang"):
+        ph = build_nac_phonon(rng.choice(["wurtzite", "nacl_prim", "zincblende_prim"]), [2, 1, 1], method)
+        qs = np.array([[rng.randint(-8, 8) / 16.0 for _ in range(3)] for _ in range(24 if thorough else 16)] + [[0, 0, 0]])
+        set_threads(8)
+        first = None
+        for rep in range(4 if thorough else 3):
+            ph.run_qpoints(qs, with_dynamical_matrices=True)
+            dms = np.array(ph.get_qpoints_dict()["dynamical_matrices"])
+            if first is None:
+                first = dms
+            elif not np.array_equal(first, dms):
+                run.violation("Phonopy.run_qpoints", "batch-not-reproducible", "the same batched run_qpoints call gives different dynamical matrices on repetition (8 OpenMP threads, NAC %s)" % method,
+                              dict(nac=method, qpoints=qs.tolist(), max_diff=float(np.abs(first - dms).max())))
+        set_threads(1)
+        for i, q in enumerate(qs):
+            D = np.array(ph.get_dynamical_matrix_at_q(q))
+            run.count("batched vs single q (NAC %s)" % method, section="oracle")
+            run.case(("batch", method, q.tobytes()), nontrivial=True)
+            if not _close(first[i], D):
+                run.violation("Phonopy.run_qpoints", "batch-differs-from-single-q",
+                              "dynamical matrix %d of a batched run_qpoints call (8 OpenMP threads, NAC %s) differs from the dynamical-matrix object at the same q by %.3g" % (i, method, np.abs(first[i] - D).max()),
+                              dict(nac=method, qpoints=qs.tolist(), index=i))
+                break
+        set_threads(4)
+
+
 def main(run):
     rng = run.rng
     thorough = run.tier == "thorough"
@@ -882,6 +914,9 @@ def main(run):
 
     # ---------------- Gamma with NAC per path, group-velocity perturbation, writers' field lists
     gamma_and_writers(run, rng, thorough, multi_lines, multi_expect)
+
+    # ---------------- batched q-points (threads) vs one q at a time
+    batched_vs_single(run, rng, thorough)
 
     # ---------------- call sequences on one instance vs fresh instances
     call_sequences(run, rng, thorough, multi_lines, multi_expect)
